@@ -176,6 +176,27 @@ impl<SystemType : System> SysCache<SystemType> {
 }
 
 
+impl<SystemType : System> SysCache<SystemType> {
+//@ extract cache.rs impl /SysCache<SystemType>$/ fn back_up_file
+//@ props C05 C07 C08 C09 C10
+//@ ret res
+//@ param Tracked(w): Tracked<&mut World>
+//@ addarg 2 /TicketFactory::from_file|self\.back_up_file_with_ticket/ Tracked(w)
+//@ spec
+        requires old(self).wf(*old(w)), inv_cache(*old(w)),
+            old(w).targets.contains(target_path@) && !under(old(w).cache_dir, target_path@),
+        ensures final(self).wf(*final(w)), final(self).path@ == old(self).path@,
+            inv_cache(*final(w)),                                   //# O-D-backup-hash [C07]
+            mt(*old(w)) ==> mt(*final(w)),
+            kept(*old(w), *final(w)),                               //# O-D-backup2-kept [C08]
+            frame_except1(*old(w), *final(w), target_path@),        //# O-D-backup2-frame [C09]
+            final(w).execs == old(w).execs,
+            res is Ok ==> old(w).files.contains_key(target_path@)   //# O-D-backup2-done [C08,C10]
+                && final(w).files == old(w).files.remove(target_path@).insert(cpath(old(w).cache_dir, sha256(old(w).files[target_path@].content)), old(w).files[target_path@]),
+            res is Err ==> *final(w) == *old(w),
+//@ end
+}
+
 // ---------- R7: derived Clone of FileState / FileInfo are structural ----------
 impl Clone for FileState { #[verifier::external_body] fn clone(&self) -> (r: FileState) ensures r == *self { unimplemented!() } }
 impl Clone for FileInfo { #[verifier::external_body] fn clone(&self) -> (r: FileInfo) ensures r == *self { unimplemented!() } }
@@ -682,8 +703,6 @@ spec fn path_strs(paths: Seq<Seq<char>>, idx: Seq<usize>) -> Seq<Seq<char>> { Se
 //@ spec
     requires inv(*old(w)), blob.wf(*old(w)), blob.all_rem_ok(),
         hist_wf(rule_history.map(), blob.file_infos@.len() as int),
-        // (environment) the command leaves no directory at a target path
-        forall|i: int| 0 <= i < blob.file_infos@.len() ==> !cmd_dirs(to_script(strs(command@)), *old(w)).contains(#[trigger] blob.file_infos@[i].path@),
     ensures
         ran(*old(w), *final(w), to_script(strs(command@))),                                             //# O-D-rebuild-one-exec [C02,C20]
         inv(*final(w)),                                                                                 //# O-D-rebuild-inv [C07]
@@ -727,5 +746,157 @@ spec fn path_strs(paths: Seq<Seq<char>>, idx: Seq<usize>) -> Seq<Seq<char>> { Se
                             contradicting_target_paths@.len() == it.index@,
                             forall|k: int| 0 <= k < it.index@ ==> (#[trigger] contradicting_target_paths@[k])@ == blob.paths()[di[k] as int],
 //@ end
+
+//@ extract work.rs fn resolve_with_cache
+//@ props C01 C02 C05 C07 C08 C09 C10 C20
+//@ ret res
+//@ param Tracked(w): Tracked<&mut World>
+//@ addarg 3 /blob\.resolve_remembered_file_state_vec|blob\.resolve_with_no_current_file_states/ Tracked(w)
+//@ spec
+    requires old(cache).wf(*old(w)), inv(*old(w)), no_urls(*downloader_cache_opt), no_urls_h(*downloader_rule_history_opt),
+        blob.wf(*old(w)), blob.all_rem_ok(),
+        hist_wf(rule_history.map(), blob.file_infos@.len() as int),                                     //# O-D-hist-wf [C05]
+    ensures final(cache).wf(*final(w)), final(cache).path@ == old(cache).path@,
+        inv(*final(w)),                                                                                 //# O-D-rwc-inv [C07]
+        kept(*old(w), *final(w)),                                                                       //# O-D-rwc-kept [C08]
+        frame_except(*old(w), *final(w), blob.paths()),                                                 //# O-D-rwc-frame [C09]
+        final(w).execs == old(w).execs,                                                                 //# O-D-rwc-noexec [C02,C20]
+        res matches Ok(v) ==> v@.len() == blob.file_infos@.len(),
+        res matches Err(e) ==> e is ResolutionError,
+        res matches Ok(v) ==> (rule_history.map().contains_key(*sources_ticket) ==>                     //# O-D-rwc-truth [C02,C10,C20]
+            (forall|k: int| 0 <= k < blob.file_infos@.len() ==>
+                    res_ok(*old(w), *final(w), blob.file_infos@[k].path@, rule_history.map()[*sources_ticket].infos@[k].ticket.bytes(), #[trigger] v@[k]))
+            && (forall|k: int| 0 <= k < blob.file_infos@.len() && uniq_at(rule_history.map()[*sources_ticket].tickets(), k) ==>
+                    res_unique(*old(w), *final(w), blob.file_infos@[k].path@, rule_history.map()[*sources_ticket].infos@[k].ticket.bytes(), #[trigger] v@[k], blob.all_absent(*old(w))))),
+        res matches Ok(v) ==> (!rule_history.map().contains_key(*sources_ticket) ==>                    //# O-D-rwc-no-history [C01,C08]
+            (forall|k: int| 0 <= k < blob.file_infos@.len() ==> (#[trigger] v@[k]) is NeedsRebuild) && blob.all_absent(*final(w))),
+//@ end
+
+// what handle_rule_node promises about the command: it ran at most once, and if it ran, ruler's own
+// file-system changes all happened before it (world `mid`), none after
+spec fn hrn_trace(a: World, b: World, script: Seq<Seq<char>>, paths: Seq<Seq<char>>) -> bool {
+    ||| (b.execs == a.execs && kept(a, b) && frame_except(a, b, paths))
+    ||| (exists|mid: World| #![trigger ran(mid, b, script)] mid.execs == a.execs && kept(a, mid) && frame_except(a, mid, paths) && inv(mid) && ran(mid, b, script))
+}
+
+//@ extract work.rs fn handle_rule_node
+//@ props C01 C02 C03 C04 C05 C07 C08 C09 C10 C17 C18 C20
+//@ ret res
+//@ param Tracked(w): Tracked<&mut World>
+//@ addarg 3 /resolve_with_cache|rebuild_node|info\.blob\.get_current_file_state_vec/ Tracked(w)
+//@ spec
+    requires rule_ext.cache.wf(*old(w)), inv(*old(w)), no_urls(rule_ext.downloader_cache_opt), no_urls_h(rule_ext.downloader_rule_history_opt),
+        info.blob.wf(*old(w)), info.blob.all_rem_ok(),
+        hist_wf(rule_ext.rule_history.map(), info.blob.file_infos@.len() as int),                       //# O-D-hist-wf [C05]
+    ensures
+        same_consts(*old(w), *final(w)),
+        inv(*final(w)),                                                                                 //# O-D-hrn-inv [C07]
+        // at most one execution; ruler's own changes lose nothing (C08) and touch only this rule's targets and the cache (C09)
+        hrn_trace(*old(w), *final(w), to_script(strs(rule_ext.command@)), info.blob.paths()),           //# O-D-hrn-trace [C02,C08,C09]
+        res matches Ok(r) ==> true_hashes(*final(w), info.blob, r.file_state_vec),                     //# O-D-hrn-true-hash [C01,C03]
+        res matches Ok(r) ==> r.blob.paths() =~= info.blob.paths() && r.blob.all_rem_ok(),             //# O-D-hrn-blob-valid [C18,C07]
+        res matches Ok(r) ==> !(r.work_option is SourceOnly),
+        // 'Built' exactly when the command ran (C20); a command that ran exited 0 (C04)
+        res matches Ok(r) ==> ((r.work_option is CommandExecuted) <==> final(w).execs != old(w).execs),                 //# O-D-option-built [C20]
+        res matches Ok(r) ==> (r.work_option matches WorkOption::CommandExecuted(o) ==> o.code == Some(0i32)),         //# O-D-built-exit-zero [C04]
+        // per-target statuses are true and none says 'Outdated' (C20); nothing ran (C02)
+        res matches Ok(r) ==> (r.work_option matches WorkOption::Resolutions(v) ==> {                                  //# O-D-option-resolutions [C02,C20]
+            &&& final(w).execs == old(w).execs
+            &&& v@.len() == info.blob.file_infos@.len()
+            &&& (rule_ext.rule_history.map().contains_key(rule_ext.sources_ticket) || info.blob.file_infos@.len() == 0)
+            &&& forall|k: int| 0 <= k < info.blob.file_infos@.len() ==> !((#[trigger] v@[k]) is NeedsRebuild)
+                    && res_ok(*old(w), *final(w), info.blob.file_infos@[k].path@, rule_ext.rule_history.map()[rule_ext.sources_ticket].infos@[k].ticket.bytes(), v@[k])
+            &&& forall|k: int| 0 <= k < info.blob.file_infos@.len() && uniq_at(rule_ext.rule_history.map()[rule_ext.sources_ticket].tickets(), k) ==>
+                    res_unique(*old(w), *final(w), info.blob.file_infos@[k].path@, rule_ext.rule_history.map()[rule_ext.sources_ticket].infos@[k].ticket.bytes(), #[trigger] v@[k], info.blob.all_absent(*old(w)))
+        }),
+        // history returned only with success, still well-formed, old entries kept, the new entry is what is on disk
+        res matches Ok(r) ==> r.rule_history matches Some(h) && hist_wf(h.map(), info.blob.file_infos@.len() as int)  //# O-D-hrn-history [C01,C04,C17]
+            && (forall|k: Ticket| #![trigger h.map()[k]] #![trigger h.map().contains_key(k)] rule_ext.rule_history.map().contains_key(k) ==> h.map().contains_key(k) && h.map()[k] == rule_ext.rule_history.map()[k])
+            && (forall|k: Ticket| #![trigger h.map().contains_key(k)] h.map().contains_key(k) ==> k == rule_ext.sources_ticket || rule_ext.rule_history.map().contains_key(k))
+            && (r.work_option is CommandExecuted ==> h.map().contains_key(rule_ext.sources_ticket) && h.map()[rule_ext.sources_ticket].tickets() =~= r.file_state_vec.tickets()),
+        // C02: remembered + every target correct or uniquely recoverable  ==>  no command
+        (res is Ok && rule_ext.rule_history.map().contains_key(rule_ext.sources_ticket)                                 //# O-D-no-exec [C02]
+            && forall|k: int| 0 <= k < info.blob.file_infos@.len() ==> {
+                    let r = (#[trigger] rule_ext.rule_history.map()[rule_ext.sources_ticket].infos@[k]).ticket.bytes();
+                    ||| (old(w).files.contains_key(info.blob.file_infos@[k].path@) && sha256(old(w).files[info.blob.file_infos@[k].path@].content) == r)
+                    ||| (uniq_at(rule_ext.rule_history.map()[rule_ext.sources_ticket].tickets(), k) && old(w).files.contains_key(cpath(old(w).cache_dir, r))) })
+            ==> final(w).execs == old(w).execs,
+        res matches Err(WorkError::Contradiction(ps)) ==> rule_ext.rule_history.map().contains_key(rule_ext.sources_ticket)    //# O-D-hrn-contradiction [C17]
+            && exists|v: FileStateVec| true_hashes(*final(w), info.blob, v) &&
+                strs(ps@) =~= path_strs(info.blob.paths(), diff_indices(rule_ext.rule_history.map()[rule_ext.sources_ticket].tickets(), #[trigger] v.tickets(), info.blob.file_infos@.len() as int)),
+        res matches Err(WorkError::TargetFileNotGenerated(p)) ==>                                       //# O-D-hrn-not-generated [C04]
+            exists|i: int| 0 <= i < info.blob.file_infos@.len() && #[trigger] info.blob.file_infos@[i].path@ == p@,
+//@ hint before 1/1 /if needs_rebuild\(&resolutions\)/
+            let ghost w_mid = *w;
+            proof {
+                assert(w_mid.execs.push(to_script(strs(rule_ext.command@))).len() != w_mid.execs.len());
+                if !rule_ext.rule_history.map().contains_key(rule_ext.sources_ticket) && info.blob.file_infos@.len() > 0 { assert(resolutions@[0] is NeedsRebuild); }
+            }
+//@ end
+
+//@ extract work.rs fn handle_source_only_node
+//@ props C01 C03 C04 C09 C05
+//@ ret res
+//@ param Tracked(w): Tracked<&mut World>
+//@ addarg 1 /blob\.get_current_file_state_vec/ Tracked(w)
+//@ spec
+    requires blob.all_rem_ok(), mt(*old(w)), blob.wf(*old(w)),
+    ensures *final(w) == *old(w),                                                                       //# O-D-leaf-readonly [C09]
+        res matches Ok(r) ==> true_hashes(*old(w), blob, r.file_state_vec),                             //# O-D-src-true-hash [C01,C03]
+        res matches Ok(r) ==> r.work_option is SourceOnly && r.rule_history is None && r.blob == blob,
+        res matches Err(WorkError::FileNotFound(p)) ==>                                                 //# O-D-leaf-missing-names [C04]
+            exists|i: int| 0 <= i < blob.file_infos@.len() && #[trigger] blob.file_infos@[i].path@ == p@ && !old(w).files.contains_key(p@),
+//@ end
+
+//@ extract work.rs fn clean_targets
+//@ props C05 C07 C08 C09 C10
+//@ ret res
+//@ param Tracked(w): Tracked<&mut World>
+//@ addarg 4 /system\.is_file|get_file_ticket|cache\.back_up_file_with_ticket|cache\.back_up_file/ Tracked(w)
+//@ spec
+    requires old(cache).wf(*old(w)), inv(*old(w)), blob.wf(*old(w)), blob.all_rem_ok(),
+    ensures final(cache).wf(*final(w)), final(cache).path@ == old(cache).path@,
+        inv(*final(w)),                                                                                 //# O-D-clean-inv [C07]
+        kept(*old(w), *final(w)),                                                                       //# O-D-clean-kept [C08]
+        frame_except(*old(w), *final(w), blob.paths()),                                                 //# O-D-clean-frame [C09]
+        final(w).execs == old(w).execs,
+        // after a successful clean no target exists, and each one's whole entry (bytes, mtime, exec bit) is in the cache under its hash
+        res is Ok ==> blob.all_absent(*final(w)),                                                       //# O-D-clean-removed [C10]
+        res is Ok ==> forall|k: int| 0 <= k < blob.file_infos@.len() && old(w).files.contains_key(#[trigger] blob.file_infos@[k].path@) ==>   //# O-D-clean-cached [C10]
+            in_cache(*final(w), sha256(old(w).files[blob.file_infos@[k].path@].content))
+            && (uniq_content_at(*old(w), blob, k) ==> final(w).files[cpath(old(w).cache_dir, sha256(old(w).files[blob.file_infos@[k].path@].content))] == old(w).files[blob.file_infos@[k].path@]),
+//@ loop 1 binder it
+//@ loop 1 invariant
+        invariant cache.wf(*w), cache.path@ == old(cache).path@, inv(*w), blob.wf(*w), blob.all_rem_ok(),
+            same_consts(*old(w), *w),
+            kept(*old(w), *w), frame_except(*old(w), *w, blob.paths()), w.execs == old(w).execs,
+            // done targets are gone and cached; pending targets are as they were
+            forall|k: int| 0 <= k < it.index@ ==> !w.files.contains_key(#[trigger] blob.file_infos@[k].path@),
+            forall|k: int| 0 <= k < it.index@ && old(w).files.contains_key(#[trigger] blob.file_infos@[k].path@) ==>
+                in_cache(*w, sha256(old(w).files[blob.file_infos@[k].path@].content)),
+            forall|k: int| 0 <= k < it.index@ && old(w).files.contains_key(#[trigger] blob.file_infos@[k].path@) && uniq_content_at(*old(w), blob, k) ==>
+                w.files[cpath(old(w).cache_dir, sha256(old(w).files[blob.file_infos@[k].path@].content))] == old(w).files[blob.file_infos@[k].path@],
+            forall|k: int| it.index@ <= k < blob.file_infos@.len() ==> (w.files.contains_key(#[trigger] blob.file_infos@[k].path@) == old(w).files.contains_key(blob.file_infos@[k].path@))
+                && (w.files.contains_key(blob.file_infos@[k].path@) ==> w.files[blob.file_infos@[k].path@] == old(w).files[blob.file_infos@[k].path@]),
+//@ hint before 1/1 /if system\.is_file\(&target_info\.path/
+        let ghost w_i = *w;
+        proof {
+            assert(blob.paths()[it.index@] == blob.file_infos@[it.index@].path@);
+            assert forall|k: int| 0 <= k < blob.file_infos@.len() && k != it.index@ implies (#[trigger] blob.file_infos@[k]).path@ != blob.file_infos@[it.index@].path@ by {}
+            if w.files.contains_key(target_info.path@) {
+                let h_i = sha256(w.files[target_info.path@].content);
+                cpath_under(w.cache_dir, h_i);
+                assert forall|k: int| 0 <= k < blob.file_infos@.len() && old(w).files.contains_key(#[trigger] blob.file_infos@[k].path@)
+                    && cpath(w.cache_dir, sha256(old(w).files[blob.file_infos@[k].path@].content)) == cpath(w.cache_dir, h_i)
+                    implies sha256(old(w).files[blob.file_infos@[k].path@].content) == h_i by {
+                    cpath_inj(w.cache_dir, sha256(old(w).files[blob.file_infos@[k].path@].content), h_i);
+                }
+            }
+        }
+//@ end
+// no other existing target of the blob has the same content hash as target k
+spec fn uniq_content_at(w: World, b: Blob, k: int) -> bool {
+    forall|j: int| 0 <= j < b.file_infos@.len() && j != k && w.files.contains_key(#[trigger] b.file_infos@[j].path@) ==> sha256(w.files[b.file_infos@[j].path@].content) != sha256(w.files[b.file_infos@[k].path@].content)
+}
 } // verus!
 fn main() {}
